@@ -48,7 +48,12 @@ void SharedMutex::unlock_shared() {
   _shared_owners_count--;
   if (_shared_owners_count == 0) {
     _occupied = false;
-    _exclusive_queue.NotifyOne();
+    if (!_exclusive_queue.Empty()) {
+      _exclusive_queue.NotifyOne();
+    } else {
+      // readers that were parked while a writer held the lock and were overtaken by other readers
+      _shared_queue.NotifyAll();
+    }
   }
 }
 
